@@ -64,6 +64,31 @@ def slot_null_fact(p, slot):
     return fact
 
 
+def depth_zero_flag(fn, name):
+    """Is the SSA value `name` a phi that is NULL only when the loop is entered and a dereferenced (hence non-NULL) node
+    pointer on every back edge?"""
+    phi = fn.defs.get(name)
+    if phi is None or phi.op != "phi":
+        return False
+    nulls, others = [], []
+    for v, b in phi.incoming:
+        (nulls if v.is_null() else others).append((v, b))
+    if len(nulls) != 1 or not others:
+        return False
+    hdr = phi.block
+    nb = fn.blocks[nulls[0][1]]
+    if fn.can_reach(hdr.insts[-1], nb.insts[-1]) and nb is not hdr:
+        return False            # the NULL arrives on a back edge
+    for v, b in others:
+        if v.k != "inst":
+            return False
+        derefd = any(u.op in ("load", "getelementptr") and u.ops and u.ops[0].k == "inst" and u.ops[0].name == v.name
+                     for u in fn.real_insts())
+        if not derefd:
+            return False
+    return True
+
+
 def search_provenance(fn, m, owner, L, R):
     """Is the node `owner` (a loop-carried SSA value) produced only by  x->left  of the current node or  owner->right ?"""
     from .. import flow
@@ -243,6 +268,15 @@ def check_post_order(chk, m, L, R, CUR, PAR):
                     o = cc[3] if cc[2] == tmp else cc[2]
                     if o[0] == "ld" and ptr_parts(o[1]) == (("arg", 0), CUR, ()):
                         root_eq = (cc[1] == "eq") == bool(taken)
+            if root_eq is None:
+                # "no parent yet" flag: a loop-carried pointer that is NULL only on entry (where the node is the head) and is set
+                # to the node just left on every descent; in a tree no descendant is the head, so flag == NULL <=> node == head
+                for c, taken, inst in p.conds:
+                    cc = strip_casts(c)
+                    if cc[0] == "icmp" and cc[1] in ("eq", "ne") and ("null",) in (cc[2], cc[3]):
+                        o = cc[2] if cc[3] == ("null",) else cc[3]
+                        if o[0] == "sym" and depth_zero_flag(fn, o[1]):
+                            root_eq = (cc[1] == "eq") == bool(taken)
             clr = [e for e in p.events if e.kind == "store" and ptr_parts(e.ptr) == (("arg", 0), CUR, ()) and e.val == ("null",)]
             if root_eq is True or root_eq is None:
                 chk.ob("M3.root-clears-curr", sid, bool(clr),
